@@ -279,42 +279,55 @@ was deserialised from.  (Refuted for the installed `onnx_ir` by finding C15-ALIA
 wraps the caller's `TensorProto` and its `name` setter writes through.) -/
 def NoAlias (s : Serde P I) : Prop := ∀ (M : Rec P) (m' : Rec I), s.writeBack M m' = M
 
+/-- The name-restoring context manager undoes the serde's write-through (contract on the repair, validated by
+the tie: with it no case leaves the caller's proto changed). -/
+def RestoreOK (s : Serde P I) : Prop := ∀ (M : Rec P) (m' : Rec I), s.restore M (s.writeBack M m') = M
+
 /-- **The other variants on a proto** (`optimize`, `rewrite`, `replace_functions`): the wrapper itself
 never assigns to the caller's proto — whatever happens to it is the serde's write-through — and the
 result is a fresh object, or (empty rule list) the argument itself. -/
 theorem pure_variants_never_assign (s : Serde P I) (T : Api → Opts W → Rec I → Rec I) (o : Opts W) (f : Api)
     (hf : f.inPlaceOnProto = false) (M : Rec P) :
     ((protoPath s T f o M).argAfter = M ∨
-      (protoPath s T f o M).argAfter = s.writeBack M (T f (forward f .proto o) (s.de M))) ∧
+      (protoPath s T f o M).argAfter = s.writeBack M (T f (forward f .proto o) (s.de M)) ∨
+      (protoPath s T f o M).argAfter = s.restore M (s.writeBack M (T f (forward f .proto o) (s.de M)))) ∧
     (showRet (protoPath s T f o M).ret = "fresh" ∨
       (f = .rewrite true ∧ showRet (protoPath s T f o M).ret = "arg")) := by
   cases f with
   | rewrite e => cases e <;> simp [protoPath, showRet]
-  | optimize => exact ⟨Or.inr rfl, Or.inl rfl⟩
-  | replaceFunctions => exact ⟨Or.inr rfl, Or.inl rfl⟩
+  | optimize => exact ⟨Or.inr (Or.inr rfl), Or.inl rfl⟩
+  | replaceFunctions => exact ⟨Or.inr (Or.inl rfl), Or.inl rfl⟩
   | _ => simp [Api.inPlaceOnProto] at hf
 
-/-- **… leave their argument unchanged** — `_partial`: under `NoAlias`, the hypothesis the proof forces. -/
+/-- **… leave their argument unchanged.**  `optimize` (names written back, `RestoreOK`) and `rewrite(M, [])`
+(nothing happens) need no assumption on aliasing; `rewrite` with rules and `replace_functions` have no such
+guard in the code, so for them the statement is `_partial`: under `NoAlias`, the hypothesis the proof forces
+(no case of the tie ever shows them changing their argument: their passes do not rename tensors). -/
 theorem pure_variants_leave_argument_partial (s : Serde P I) (T : Api → Opts W → Rec I → Rec I) (o : Opts W)
-    (f : Api) (hf : f.inPlaceOnProto = false) (hna : NoAlias s) (M : Rec P) :
+    (f : Api) (hf : f.inPlaceOnProto = false) (hr : RestoreOK s)
+    (hna : (f = .rewrite false ∨ f = .replaceFunctions) → NoAlias s) (M : Rec P) :
     (protoPath s T f o M).argAfter = M := by
   cases f with
-  | rewrite e => cases e <;> first | rfl | exact hna M _
-  | optimize => exact hna M _
-  | replaceFunctions => exact hna M _
+  | rewrite e =>
+    cases e
+    · exact hna (Or.inl rfl) M _
+    · rfl
+  | optimize => exact hr M _
+  | replaceFunctions => exact hna (Or.inr rfl) M _
   | _ => simp [Api.inPlaceOnProto] at hf
 
 example : NoAlias (⟨id, id, 0, fun M _ => M, fun M _ => M⟩ : Serde Nat Nat) := fun _ _ => rfl
 
-/-- The full statement (no `NoAlias`) is false: with a serde that writes through, `optimize(proto)`
-changes the proto it was given.  Real counterpart (finding C15-ALIAS): `optimize` on a model with a
-`Constant` node — the caller's attribute `TensorProto.name` changes from `''` to the value name. -/
+/-- Without `NoAlias` the statement is false *in the model* for `rewrite` with rules (and likewise
+`replace_functions`): a serde that writes through changes the proto they were given.  (No real-code witness:
+what wrote through in the installed onnx_ir — finding C15-ALIAS — was `optimize`'s constant lifting, now
+repaired; see `optimize_old_branch_refuted`.) -/
 theorem pure_variants_leave_argument_full_refuted :
     ¬ (∀ (s : Serde Bool Bool) (T : Api → Opts Unit → Rec Bool → Rec Bool) (o : Opts Unit) (f : Api),
-        f.inPlaceOnProto = false → ∀ M : Rec Bool, (protoPath s T f o M).argAfter = M) := by
+        f.inPlaceOnProto = false → RestoreOK s → ∀ M : Rec Bool, (protoPath s T f o M).argAfter = M) := by
   intro h
-  have := congrFun (h ⟨id, id, false, fun _ _ _ => false, fun _ c => c⟩ (fun _ _ m => m) (fun _ => ()) .optimize rfl
-    (fun _ => true)) Carrier.nodes
+  have := congrFun (h ⟨id, id, false, fun _ _ _ => false, fun saved _ => saved⟩ (fun _ _ m => m) (fun _ => ())
+    (.rewrite false) rfl (fun _ _ => rfl) (fun _ => true)) Carrier.nodes
   revert this; decide
 
 /-- **IR entry**: always in place — the `ir.Model` passed in holds the result, no fresh model is ever
@@ -371,13 +384,9 @@ theorem source_proto_entry_is_model (s : Serde P I) (T : Api → Opts W → Rec 
     protoExec s (T f (forward f .proto o)) hasF f.emptyRules (prog f.srcName "proto") M
       = (match f with
          | .replaceFunctions => protoReplace s T hasF o M
-         | .optimize =>
-           if (prog "optimize" "proto").contains .restoreNames then protoOptimizeRestoring s T o M
-           else protoPath s T .optimize o M
          | f => protoPath s T f o M) := by
   cases f with
   | rewrite e => cases e <;> rfl
-  | optimize => first | rfl | (simp only [prog]; rfl) | decide
   | convertVersion =>
     simp only [protoExec, prog, Api.srcName, List.foldl, protoStep, protoPath, Api.emptyRules, Option.getD]
     congr 1
@@ -402,17 +411,26 @@ theorem source_ir_entry_is_model (T : Api → Opts W → Rec I → Rec I) (hasF 
     by_cases h : hasF m = true <;> simp [h, irStep]
   | _ => rfl
 
-/-- The name-restoring context manager undoes the serde's write-through (contract on the repair, validated by
-the tie: with it no case leaves the caller's proto changed). -/
-def RestoreOK (s : Serde P I) : Prop := ∀ (M : Rec P) (m' : Rec I), s.restore M (s.writeBack M m') = M
-
-/-- With the repair of C15-ALIAS in place `optimize(ModelProto)` leaves its argument unchanged without any
-no-aliasing assumption on the serde, and produces the same model. -/
-theorem optimize_restoring_leaves_argument (s : Serde P I) (T : Api → Opts W → Rec I → Rec I) (o : Opts W)
+/-- **`optimize(ModelProto)` leaves its argument unchanged** (after fix 0d5ec74) with *no* no-aliasing
+assumption on the serde: whatever the IR wrote through, the recorded names are written back. -/
+theorem optimize_leaves_argument (s : Serde P I) (T : Api → Opts W → Rec I → Rec I) (o : Opts W)
     (hr : RestoreOK s) (M : Rec P) :
-    (protoOptimizeRestoring s T o M).argAfter = M ∧
-    (protoOptimizeRestoring s T o M).result = (protoPath s T .optimize o M).result :=
-  ⟨hr M _, rfl⟩
+    (protoPath s T .optimize o M).argAfter = M :=
+  hr M _
+
+/-- **C15-ALIAS (fixed by 0d5ec74).**  The branch as it was — no `_preserve_tensor_names` — changes the proto
+it is given as soon as the serde writes through, although it produces the same model.  Real counterpart:
+`c = Constant<value=float[2]{1,2}>(); y = Add(x, c)`: the caller's attribute `TensorProto.name` went from
+`''` to `'c'`. -/
+theorem optimize_old_branch_refuted :
+    ¬ (∀ (s : Serde Bool Bool) (T : Api → Opts Unit → Rec Bool → Rec Bool) (o : Opts Unit) (M : Rec Bool),
+        RestoreOK s → (protoOptimizeOld s T o M).argAfter = M) ∧
+    (∀ (s : Serde P I) (T : Api → Opts W → Rec I → Rec I) (o : Opts W) (M : Rec P),
+        (protoOptimizeOld s T o M).result = (protoPath s T .optimize o M).result) := by
+  refine ⟨fun h => ?_, fun _ _ _ _ => rfl⟩
+  have := congrFun (h ⟨id, id, false, fun _ _ _ => false, fun saved _ => saved⟩ (fun _ _ m => m) (fun _ => ())
+    (fun _ => true) (fun _ _ => rfl)) Carrier.nodes
+  revert this; decide
 
 example : RestoreOK (⟨id, id, 0, fun _ m' => m', fun saved _ => saved⟩ : Serde Nat Nat) := fun _ _ => rfl
 
@@ -438,12 +456,7 @@ theorem source_proto_eq_ir (s : Serde P I) (T : Api → Opts W → Rec I → Rec
     simp only [protoReplace, irReplace, h]
     exact proto_eq_ir s T o .replaceFunctions rfl M
   | optimize =>
-    have h := proto_eq_ir s T o .optimize rfl M
-    show (if (prog "optimize" "proto").contains .restoreNames then protoOptimizeRestoring s T o M
-          else protoPath s T .optimize o M).result = s.ser (irPath T .optimize o (s.de M)).result
-    by_cases hc : (prog "optimize" "proto").contains .restoreNames = true
-    · rw [if_pos hc]; exact h
-    · rw [if_neg hc]; exact h
+    exact proto_eq_ir s T o .optimize rfl M
   | convertVersion => simp [Api.wholesale] at hf
   | rewrite e => exact proto_eq_ir s T o (.rewrite e) hf M
   | foldConstants => exact proto_eq_ir s T o .foldConstants rfl M
@@ -476,13 +489,8 @@ theorem source_inplace_or_pure (s : Serde P I) (T : Api → Opts W → Rec I →
     | convertVersion => exact inplace_variants_mutate_argument s T o .convertVersion rfl M
   · intro hf hna hr
     cases f with
-    | rewrite e => exact pure_variants_leave_argument_partial s T o (.rewrite e) rfl hna M
-    | optimize =>
-      show (if (prog "optimize" "proto").contains .restoreNames then protoOptimizeRestoring s T o M
-            else protoPath s T .optimize o M).argAfter = M
-      by_cases hc : (prog "optimize" "proto").contains .restoreNames = true
-      · rw [if_pos hc]; exact hr M _
-      · rw [if_neg hc]; exact hna M _
+    | rewrite e => exact pure_variants_leave_argument_partial s T o (.rewrite e) rfl hr (fun _ => hna) M
+    | optimize => exact hr M _
     | replaceFunctions =>
       show (protoReplace s T hasF o M).argAfter = M
       unfold protoReplace
